@@ -320,6 +320,13 @@ func (s *ObjectStorage) Reindex() error {
 		s.packs = entries
 		s.lastHitPackIdx.Store(0)
 		s.muI.Unlock()
+
+		// Objects served earlier may sit in the object cache bound to a
+		// pack that has since been deleted by another process (a repack):
+		// the new index routes their hashes to the new pack, the cache
+		// would still hand out the old, unreadable object. Whatever is
+		// still valid is re-read from the packs just indexed.
+		s.objectCache.Clear()
 	}
 	s.reindexCovered, s.reindexErr = covered, err
 	return err
